@@ -446,8 +446,10 @@ class XMLReader(object):
                     # Special handling of values;
                     curr_text = node.text.strip() if node.text else None
                     if tag == "values" and curr_text:
-                        content = from_csv(curr_text)
-                        arguments[tag] = content
+                        try:
+                            arguments[tag] = from_csv(curr_text)
+                        except csv.Error as exc:
+                            self.error("Values could not be parsed: %s" % str(exc), node)
                     # Special handling of cardinality
                     elif tag.endswith("_cardinality") and curr_text:
                         arguments[tag] = parse_cardinality(node.text)
@@ -469,7 +471,12 @@ class XMLReader(object):
 
         if insert_children:
             for child in children:
-                obj.append(child)
+                try:
+                    obj.append(child)
+                except Exception as exc:
+                    # e.g. a second child with the same name
+                    self.error("%s could not be added to <%s>: %s" %
+                               (repr(child), root.tag, str(exc)), root)
 
         return obj
 
